@@ -8,7 +8,7 @@ from oracle.packet import addr_pred, ALL
 from .common import Spec, Claims, i2m, in_nets
 
 PROPERTY = "C14"
-BOUNDS = ("(i) lists of 2 networks with BOTH bases free over 2^32 and prefix lengths from {0,8,23,24,25,31,32} "
+BOUNDS = ("(o) one-element lists (net, host, any); (i) lists of 2 networks with BOTH bases free over 2^32 and prefix lengths from {0,8,23,24,25,31,32} "
           ": every relation the algorithm tests is reached by forking; (ii) lists of 2..4 (quick) / 2..5 (thorough) "
           "networks from 18 relation templates over ONE free base (siblings, sibling chains merging twice and three times, nested, "
           "duplicates, adjacent non-siblings, disjoint, merge result covering a later element, /31+/32, /1 halves, /0) in all orders "
@@ -37,6 +37,7 @@ TEMPLATES = {
     "disj": ["S1", "DIS"], "hosts": ["H1", "H2", "H3"], "mix4": ["S1", "S2", "N1", "H1"], "chain-dup": ["S3", "S2", "S1", "D"],
     "halves": ["Z0", "Z1"], "any": ["ANY", "S1"], "hosts-in": ["H1", "H2", "S1"], "cover-later": ["N1", "ADJ", "S2"],
     "chain-disj": ["S1", "S2", "S3", "DIS"], "whole-then-parts": ["W", "S1", "S2"],
+    "one-net": ["S1"], "one-host": ["H1"], "one-any": ["ANY"],          # one-element lists go through the same contract (no note, kind, set)
     "dup-half-sibling": ["ADJ", "ADJd", "S1"], "nested-half-sibling": ["ADJ", "Q1", "Q1h", "S1"], "quarters": ["Q1", "Q2", "ADJ", "S1"],
 }
 
@@ -130,11 +131,19 @@ def h_template(ctx):
 def h_refuse(ctx):
     """non-contiguous wildcards and foreign object types are refused with TypeError"""
     from cisco_acl import Address, AddressAg, address, address_ag
-    case = ctx.pick("case", ["nc-wildcard", "foreign-in-address", "foreign-in-ag", "string"])
+    case = ctx.pick("case", REFUSE_CASES)
     s, v = T.fresh_quad(ctx, "a")
     try:
         if case == "nc-wildcard":
             address.collapse([Address(s + " 0.0.1.3"), Address("host " + s)])
+        elif case == "nc-wildcard-alone":
+            address.collapse([Address(s + " 0.0.1.3")])
+        elif case == "nc-wildcard-last":
+            address.collapse([Address("host " + s), Address(s + " 0.0.0.255"), Address(s + " 0.0.1.3")])
+        elif case == "nc-wildcard-ag-alone":
+            address_ag.collapse([AddressAg(s + " 0.0.1.3", platform="nxos")])
+        elif case == "foreign-alone-after-valid":
+            address.collapse([Address("host " + s), AddressAg("host " + s)])
         elif case == "foreign-in-address":
             address.collapse([AddressAg("host " + s)])
         elif case == "foreign-in-ag":
@@ -151,10 +160,13 @@ def h_refuse(ctx):
 
 
 ORDERS = {}
+REFUSE_CASES = ["nc-wildcard", "nc-wildcard-alone", "nc-wildcard-last", "nc-wildcard-ag-alone", "foreign-in-address", "foreign-in-ag",
+                "foreign-alone-after-valid", "string"]
 
 
 def specs(tier, seed, concrete=False):
     rnd = random.Random(seed)
+    ORDERS[1] = [[0]]
     for n in (2, 3, 4, 5):
         perms = [list(p) for p in itertools.permutations(range(n))]
         if n >= 4 and tier == "quick":
@@ -172,6 +184,6 @@ def specs(tier, seed, concrete=False):
         Spec("template", h_template, [{"cls": c, "platform": p, "template": t} for c in ("Address", "AddressAg") for p in ("ios", "nxos")
                                       for t in sorted(TEMPLATES) if not (c == "AddressAg" and p == "ios" and "ANY" in TEMPLATES[t])],
              goals=["collapsed", "refused"], describe="relation templates over one free base, all orders"),
-        Spec("refuse", h_refuse, [{"case": c} for c in ("nc-wildcard", "foreign-in-address", "foreign-in-ag", "string")],
+        Spec("refuse", h_refuse, [{"case": c} for c in REFUSE_CASES],
              goals=["refused"], describe="TypeError for non-contiguous wildcards and foreign types"),
     ]
